@@ -284,6 +284,8 @@ def write_docx(doc: dict) -> bytes:
             add_rel(RT_CEX, "commentsExtensible.xml")
 
     for name, data in (doc.get("extra_members") or {}).items():
+        if isinstance(data, str) and data.startswith("hex:"):
+            data = bytes.fromhex(data[4:])      # (binary members are kept as hex so that cases stay JSON)
         members[name] = data if isinstance(data, bytes) else data.encode("utf-8")
     for pn, ctype in (doc.get("extra_overrides") or {}).items():
         add_override(pn, ctype)
